@@ -44,6 +44,9 @@ LETTERS = [('S', 'E', 'B'), ('P', 'Q', 'R'), ('U', 'V', 'W'),
            ('S', 'E', 'B'), ('P', 'Q', 'R'), ('U', 'V', 'W')]
 # (has_end, has_body, end matches '')
 SHAPES = [(0, 0, 0), (0, 1, 0), (1, 0, 0), (1, 1, 0), (1, 0, 1), (1, 1, 1)]
+# third component, kind of end pattern: 0 matches neither '' nor a blank line,
+# 1 both, 2 a blank line only, 3 '' only
+MORE_SHAPES = SHAPES + [(1, 0, 2), (1, 1, 2), (1, 0, 3), (1, 1, 3)]
 ROLE = {'start': 0, 'body': 1, 'end': 2}
 CLASS_NAMES = ['-', 'S', 'E', 'SE', 'B', 'SB', 'EB', 'SEB']
 
@@ -57,9 +60,16 @@ def patterns(letters, shape):
     start = rf'^\w*{s}\w* (\d+) \d+ \d+'
     end = None
     if he:
-        if ee:
-            # also matches the empty string (group 1 is then None)
+        if ee == 1:
+            # also matches the empty string (group 1 is then None) and a
+            # blank line
             end = rf'^(?:\w*{e}\w* \d+ (\d+) \d+)?$'
+        elif ee == 2:
+            # matches a blank line ("\n") but NOT the empty string
+            end = rf'^(?:\w*{e}\w* \d+ (\d+) \d+|\s+$)'
+        elif ee == 3:
+            # matches the empty string but NOT a blank line
+            end = rf'^(?:\w*{e}\w* \d+ (\d+) \d+\n)?\Z'
         else:
             end = rf'^\w*{e}\w* \d+ (\d+) \d+'
     body = rf'^\w*{b}\w* \d+ \d+ (\d+)' if hb else None
@@ -69,6 +79,8 @@ def patterns(letters, shape):
 def line_text(codes, letters_list, abc):
     """ codes[k]: class of this line for definition k (bit0 S, bit1 E,
     bit2 B, in that definition's letters) """
+    if codes is None:
+        return ''                      # a blank line
     word = ''
     for code, (s, e, b) in zip(codes, letters_list):
         for bit, ch in ((1, s), (2, e), (4, b)):
@@ -95,21 +107,28 @@ def tabulate(case):
         rs = re.compile(ps)
         r_e = re.compile(pe) if pe else None
         rb = re.compile(pb) if pb else None
+        # a part created with store_result_contents=False yields results
+        # without content: its captures are seen as None (-1)
+        ns = d.get('nostore', [0, 0, 0])
         ee = -2
         if r_e is not None:
             m = r_e.match('')
             if m:
-                ee = payload(m)
+                ee = -1 if ns[1] else payload(m)
         shapes.append((d['shape'][0], d['shape'][1], ee))
         col = []
-        for t in texts:
-            line = t + '\n'
+        for i, t in enumerate(texts):
+            last = (i == len(texts) - 1)
+            line = t + ('' if last and not final_newline(case, texts)
+                        else '\n')
             ms = rs.match(line)
             me = r_e.match(line) if r_e is not None else None
             mb = rb.match(line) if rb is not None else None
             code = (1 if ms else 0) | (2 if me else 0) | (4 if mb else 0)
-            col.append((code, payload(ms) or 0, payload(me) or 0,
-                        payload(mb) or 0))
+            col.append((code,
+                        (-1 if ns[0] else payload(ms)) if ms else 0,
+                        (-1 if ns[1] else payload(me)) if me else 0,
+                        (-1 if ns[2] else payload(mb)) if mb else 0))
         per_def.append(col)
     lines = [[per_def[k][i] for k in range(len(case['defs']))]
              for i in range(len(texts))]
@@ -184,18 +203,25 @@ def canon_sections(secs):
     return out, problems
 
 
-def build_searcher(case, paths):
+def build_searcher(case, paths, sds=None):
     from searchkit import FileSearcher, SearchDef, SequenceSearchDef
     fs = FileSearcher(max_parallel_tasks=case.get('max_parallel', 8))
-    sds = []
-    for d in case['defs']:
-        ps, pe, pb = patterns(LETTERS[d['letters']], d['shape'])
-        sd = SequenceSearchDef(
-            start=SearchDef(ps),
-            body=SearchDef(pb) if pb else None,
-            end=SearchDef(pe) if pe else None,
-            tag=d['tag'])
-        sds.append(sd)
+    if sds is None:
+        sds = []
+        for d in case['defs']:
+            ps, pe, pb = patterns(LETTERS[d['letters']], d['shape'])
+            ns = d.get('nostore', [0, 0, 0])
+
+            def part(pat, off):
+                if off:
+                    return SearchDef(pat, store_result_contents=False)
+                return SearchDef(pat)
+            sd = SequenceSearchDef(
+                start=part(ps, ns[0]),
+                body=part(pb, ns[2]) if pb else None,
+                end=part(pe, ns[1]) if pe else None,
+                tag=d['tag'])
+            sds.append(sd)
     order = list(range(len(sds)))
     simple = None
     if case.get('simple'):
@@ -236,10 +262,16 @@ def observe(case, results, sds, path=None, nlines=None):
     return per_def, problems, all_ids
 
 
+def final_newline(case, texts):
+    """ the last line has its terminator (always, if it is a blank line) """
+    return bool(texts) and (case.get('final_newline', True)
+                            or texts[-1] == '')
+
+
 def write_file(path, case, texts=None):
     texts = case['texts'] if texts is None else texts
     data = '\n'.join(texts)
-    if texts and case.get('final_newline', True):
+    if final_newline(case, texts):
         data += '\n'
     with open(path, 'w', encoding='utf-8') as f:
         f.write(data)
@@ -248,8 +280,22 @@ def write_file(path, case, texts=None):
 def run_single(case, workdir):
     """ one file, in-process (FileSearcher._run_single) """
     path = os.path.join(workdir, 'seq.txt')
+    sds = None
+    if case.get('after_failure'):
+        # history: the same definitions were used by a run that FAILED in
+        # the middle of a section (undecodable bytes, strict decoding)
+        bad = os.path.join(workdir, 'bad.txt')
+        ll = [LETTERS[d['letters']] for d in case['defs']]
+        with open(bad, 'wb') as f:
+            f.write((line_text([1] * len(ll), ll, (1, 2, 3)) + '\n')
+                    .encode() + b'\xff\xfe 1 2 3\n')
+        fs0, sds = build_searcher(case, [bad])
+        try:
+            fs0.run()
+        except Exception:  # pylint: disable=broad-except
+            pass
     write_file(path, case)
-    fs, sds = build_searcher(case, [path])
+    fs, sds = build_searcher(case, [path], sds)
     results = fs.run()
     if case.get('twice'):
         results = fs.run()           # definitions are reset per file (D4b)
@@ -334,8 +380,8 @@ def mk_case(defs, codes_rows, rng=None, **kw):
             abc = (rng.randrange(1000), rng.randrange(1000),
                    rng.randrange(1000))
         texts.append(line_text(row, letters_list, abc))
-    case = {'defs': defs, 'texts': texts, 'codes': [list(r) for r in
-                                                    codes_rows]}
+    case = {'defs': defs, 'texts': texts,
+            'codes': [None if r is None else list(r) for r in codes_rows]}
     case.update(kw)
     return case
 
@@ -359,8 +405,12 @@ def random_case(rng, maxlen=40):
     defs = []
     for k in range(nd):
         tag = rng.choice(['ta', 'tb']) if rng.random() < 0.5 else f"t{k}"
-        defs.append({'letters': k, 'shape': list(rng.choice(SHAPES)),
-                     'tag': tag})
+        d = {'letters': k, 'shape': list(rng.choice(MORE_SHAPES)),
+             'tag': tag}
+        if rng.random() < 0.3:
+            # parts that do not store what they matched (start, end, body)
+            d['nostore'] = [int(rng.random() < 0.5) for _ in range(3)]
+        defs.append(d)
     n = rng.choice([rng.randrange(1, 8), rng.randrange(5, 20),
                     rng.randrange(min(10, maxlen), maxlen + 1)])
     # per definition its own bias: dense starts / dense ends / sparse
@@ -377,7 +427,12 @@ def random_case(rng, maxlen=40):
         biases.append(w)
     rows = [[rng.choices(range(8), weights=biases[k])[0] for k in range(nd)]
             for _ in range(n)]
+    if rng.random() < 0.3:
+        # blank lines: an end pattern may match them, or '' only, or both
+        for _ in range(rng.randrange(1, 4)):
+            rows.insert(rng.randrange(0, len(rows) + 1), None)
     return mk_case(defs, rows, rng, kind='random',
+                   after_failure=rng.random() < 0.06,
                    simple=rng.random() < 0.5,
                    simple_pos=rng.randrange(0, nd + 1),
                    final_newline=rng.random() < 0.8,
@@ -397,6 +452,18 @@ def corpus_cases():
                       kind='corpus')
         yield mk_case(defs, [[c] * len(defs) for c in w], None,
                       kind='corpus', twice=True)
+    # end patterns that tell '' from a blank line; parts that do not store
+    # their contents; definitions reused after a failed run
+    defs2 = [{'letters': 0, 'shape': list(sh), 'tag': f"t{k}"}
+             for k, sh in enumerate(MORE_SHAPES)]
+    for w in [[S, B], [S, B, None], [S, None, B], [None, S, B, None, S],
+              [S, B, E, S, S, B, E, S, B]]:
+        rows = [None if c is None else [c] * len(defs2) for c in w]
+        yield mk_case(defs2, rows, None, kind='corpus')
+        yield mk_case(defs2, rows, None, kind='corpus', after_failure=True)
+        for ns in ([1, 0, 0], [0, 1, 0], [0, 0, 1], [1, 1, 1]):
+            yield mk_case([dict(d, nostore=ns) for d in defs2], rows, None,
+                          kind='corpus')
 
 
 # coverage statistics only (never used for a verdict)
@@ -418,7 +485,7 @@ def boundary_classes(shape, codes, nlines, sections):
             open_ = False
     if open_:
         out.add('open-at-eof:' + ('no-end-kept' if not he else
-                                  ('completed-by-empty-end' if ee
+                                  ('completed-by-empty-end' if ee in (1, 3)
                                    else 'dropped')))
     if any(it[1] == 1 for s in sections for it in s):
         out.add('section-with-body')
@@ -454,9 +521,16 @@ def check_cases(chk, cases, tag):
             shapes, lines = tabulate(case)
             # generator sanity: the oracle sees the classes we meant
             if 'codes' in case:
-                meant = [[c for c in row] for row in case['codes']]
+                # (a last line without terminator may legitimately be seen
+                # differently by an end pattern that looks at the "\n")
+                keep = [i for i, row in enumerate(case['codes'])
+                        if row is not None and
+                        (i < len(case['codes']) - 1 or
+                         final_newline(case, case['texts']))]
+                meant = [case['codes'][i] for i in keep]
                 got = [[q[0] & ((1 | (2 if sh[0] else 0) | (4 if sh[1] else
-                        0))) for q, sh in zip(row, shapes)] for row in lines]
+                        0))) for q, sh in zip(lines[i], shapes)]
+                       for i in keep]
                 want_codes = [[c & ((1 | (2 if sh[0] else 0) | (4 if sh[1]
                                else 0))) for c, sh in zip(row, shapes)]
                               for row in meant]
@@ -493,6 +567,15 @@ def check_cases(chk, cases, tag):
             chk.dist('len-bucket=' + bucket(len(case['texts'])))
             if case.get('twice'):
                 chk.dist('second-run-of-same-searcher')
+            if case.get('after_failure'):
+                chk.dist('definitions-reused-after-failed-run')
+            if '' in case['texts']:
+                chk.dist('file-with-blank-lines')
+            for dd in case['defs']:
+                if dd['shape'][0] and dd['shape'][2] >= 2:
+                    chk.dist("end-pattern-tells-''-from-blank-line")
+                if any(dd.get('nostore', [])):
+                    chk.dist('part-with-store_result_contents=False')
             if len({x['tag'] for x in case['defs']}) < len(case['defs']):
                 chk.dist('shared-tag')
     finally:
@@ -627,7 +710,11 @@ def run(chk):
         "4 (quick) / 5 (thorough) for all six shapes, random words up to "
         "length 40 with 1-3 definitions (own letters, some sharing a tag, "
         "simple search mixed in, optional missing final newline, second "
-        "run of the same searcher), multi-file multi-process runs; an "
+        "run of the same searcher, blank lines, end patterns matching '' "
+        "and/or a blank line (four kinds), start/end/body parts created "
+        "with store_result_contents=False, definitions reused after a run "
+        "that failed mid-section with UnicodeDecodeError), multi-file "
+        "multi-process runs; an "
         "evaluation = one (definition, file) comparison of the "
         "implementation with model, spec and joint model inside Coq; "
         "non-trivial = the definition's start matches at least one line; "
